@@ -30,6 +30,7 @@ func init() {
 	register(&Scenario{Prop: "C09", Name: "encrypt-leak", Run: func(rc *RunCtx) { runEncrypt(rc, "C09") }})
 	register(&Scenario{Prop: "C10", Name: "encrypt-copy", Run: func(rc *RunCtx) { runEncrypt(rc, "C10") }})
 	register(&Scenario{Prop: "C10", Name: "encrypt-observer", Run: runEncryptObserver})
+	register(&Scenario{Prop: "C10", Name: "encrypt-shared-event", Race: true, RaceFilter: c10RaceFilter, Run: runEncryptShared})
 	register(&Scenario{Prop: "C16", Name: "encrypt-keys", Run: func(rc *RunCtx) { runEncrypt(rc, "C16") }})
 	register(&Scenario{Prop: "C16", Name: "encrypt-rotate-conc", Run: runEncryptRotateConc})
 }
@@ -1312,6 +1313,98 @@ func runEncryptObserver(rc *RunCtx) {
 	if sim.Stuck {
 		rc.Failf("C10.stuck", stuckClass(sim), "did not finish: %s", strings.Join(sim.StuckInfo, "; "))
 	}
+}
+
+// ---- C10: two encrypt filters of two pipelines work on ONE event at the same time ---------------
+//
+// Both filters hold the very same *Event (the Broker hands one event to every pipeline).
+// Under the race detector, with the scheduler deciding the interleaving, any WRITE the
+// encrypt package makes to memory the other filter reads is a modification of the event
+// the filter was given (its own copy is private, its own state is behind its lock).
+// Reads by the filter that race with other nodes' writes are C19's subject, not C10's.
+
+type keepNode struct {
+	kind el.NodeType
+	got  [4]*el.Event
+	n    int
+}
+
+func (n *keepNode) Type() el.NodeType { return n.kind }
+func (n *keepNode) Reopen() error     { return nil }
+
+//go:norace
+func (n *keepNode) Process(ctx context.Context, e *el.Event) (*el.Event, error) {
+	if n.n < len(n.got) {
+		n.got[n.n] = e
+		n.n++
+	}
+	return nil, nil
+}
+
+func runEncryptShared(rc *RunCtx) {
+	tp := rc.Tape
+	sim := rc.Sim
+	rc.DigestUnstable = true
+	kv := &keyVersion{n: 1, key: keyBytes(1)}
+	kv.w = newAead(kv.key, "key-1")
+	d := &drawRec{tape: tp}
+	g := &encGen{d: d, exp: map[string]*leafExp{}, overrides: nil, fill: 60}
+	kind := []int{0, 1, 3, 7, 9, 10, 11, 13, 13, 15, 16}[tp.Choose(11, "kind")]
+	payload, top := g.payload(kind, 1)
+	g2 := &encGen{d: &drawRec{rec: d.rec, replay: true}, exp: map[string]*leafExp{}, fill: 60}
+	snapshot, _ := g2.payload(kind, 1)
+	b, _ := el.NewBroker()
+	nPipes := 2 + tp.Choose(2, "npipes")
+	var sinks []*keepNode
+	for i := 0; i < nPipes; i++ {
+		k := &keepNode{kind: el.NodeTypeSink}
+		sinks = append(sinks, k)
+		ids := []el.NodeID{el.NodeID(fmt.Sprintf("pass%d", i)), el.NodeID(fmt.Sprintf("enc%d", i)), el.NodeID(fmt.Sprintf("fmt%d", i)), el.NodeID(fmt.Sprintf("sink%d", i))}
+		b.RegisterNode(ids[0], &passNode{el.NodeTypeFilter})
+		b.RegisterNode(ids[1], &encrypt.Filter{Wrapper: kv.w})
+		b.RegisterNode(ids[2], &passNode{el.NodeTypeFormatter})
+		b.RegisterNode(ids[3], k)
+		b.RegisterPipeline(el.Pipeline{PipelineID: el.PipelineID(fmt.Sprintf("p%d", i)), EventType: "t", NodeIDs: ids})
+	}
+	same := true
+	sim.Spawn("sender", func() {
+		b.Send(context.Background(), "t", payload)
+		simrt.Yield("sender:after")
+		same = samePayload(payload, snapshot)
+	})
+	sim.Run(nil)
+	rc.NonTrivial = len(g.exp) > 2
+	rc.Desc = map[string]interface{}{"payload": top, "leaves": len(g.exp), "pipelines": nPipes}
+	if sim.Stuck {
+		rc.Failf("C10.stuck", stuckClass(sim), "did not finish: %s", strings.Join(sim.StuckInfo, "; "))
+		return
+	}
+	if !same {
+		rc.Failf("C10.original-observed-modified", "payload="+top+",shared", "after %d encrypt filters of %d pipelines worked on one event the caller's payload differs from its snapshot", nPipes, nPipes)
+	}
+	if simrt.RaceBuild {
+		return
+	}
+	for i, k := range sinks {
+		if k.n != 1 || k.got[0] == nil {
+			rc.Failf("C10.shared-delivery", "", "sink of pipeline p%d received %d events", i, k.n)
+			continue
+		}
+		for j := 0; j < i; j++ {
+			if sinks[j].n == 1 && sinks[j].got[0] == k.got[0] {
+				rc.Failf("C10.copy-not-private", "payload="+top, "the encrypt filters of pipelines p%d and p%d forwarded the very same event object: the copy is not private", j, i)
+			}
+		}
+		if found := canaryScan(g.exp, k.got[0]); len(found) > 0 {
+			rc.Failf("C10.original-forwarded", "payload="+top, "the sink behind the encrypt filter of pipeline p%d received protected plaintext (the original instead of the filtered copy?): %v", i, found)
+		}
+	}
+}
+
+// c10RaceFilter keeps the races in which the encrypt package is the WRITER.
+func c10RaceFilter(sig string) bool {
+	i := strings.Index(sig, "| write ")
+	return i >= 0 && strings.Contains(sig[i:], "/filters/encrypt")
 }
 
 // ---- C16: concurrent rotation -----------------------------------------------------------------
